@@ -213,3 +213,27 @@ Theorem C14_local_soundness_premise_is_insufficient :
   runl tsL opsL [] (empty_egraph D) = Some false /\ (forall rho, sound_ops rho tsL opsL [] = false).
 Proof. exact local_premise_insufficient. Qed.
 Print Assumptions C14_local_soundness_premise_is_insufficient.
+
+(* third session, fifth round (EGraph/AnalysisModelFold{Sem,Upd,Move,Ui,Skel,Top2,Hp,Add,Inv,SemEval}.v): CONSTANT FOLDING, continued.  The boundary invariant of
+   the conditional theorem is FALSE for an arbitrary leaf valuation (C14_constant_folding_needs_a_slot_independent_valuation: a valuation that
+   tells apart two leaves differing only by a slot name - var $2 = 4, var $6 = 5 - makes both unions "sound" while the one class of `var` ends up
+   with two different constants): the semantic soundness premise must treat slot names uniformly (slots are universally quantified; the harness
+   generator gives all variables one value).  With that premise (rho_sk) the per-step lemmas are proved in semantic form for a value assignment
+   `val` of the classes: update_analysis re-establishes flat stability, move_to of two classes of equal value keeps the invariant
+   (C14_constant_folding_move_to_keeps_the_invariant), the general union, the miss-insertion, one pending-loop round (from the key premise and a
+   kids-data invariant); the reachable-state theorem is reduced to the two operation-level closure statements (AnalysisModelFoldInv.v), both
+   evaluated at every loop head of the validation histories. *)
+From SE Require Import EGraph.AnalysisModelInv EGraph.AnalysisModelFold EGraph.AnalysisModelFoldSem EGraph.AnalysisModelFoldUpd EGraph.AnalysisModelFoldMove EGraph.AnalysisModelFoldSemEval.
+Theorem C14_constant_folding_needs_a_slot_independent_valuation :
+  ~ (forall s hts, reachF rhoX s hts -> cf_stab s /\ cf_just s).
+Proof. exact H_inv_false. Qed.
+Print Assumptions C14_constant_folding_needs_a_slot_independent_valuation.
+
+Theorem C14_constant_folding_move_to_keeps_the_invariant : forall rho val from to s s',
+  semv rho val s -> cf_stabx_m (fun _ => False) s -> cf_justs_m s -> S0 (option N) s ->
+  find_id (option N) s (aid from) = Ok (aid from) -> find_id (option N) s (aid to) = Ok (aid to) -> aid from <> aid to ->
+  val (aid from) = val (aid to) ->
+  move_to (option N) optN_eqb merge_or from to s = Ok (tt, s') ->
+  semv rho val s' /\ cf_stabx_m (fun _ => False) s' /\ cf_justs_m s' /\ S0 (option N) s'.
+Proof. exact cf_move_to. Qed.
+Print Assumptions C14_constant_folding_move_to_keeps_the_invariant.
